@@ -424,6 +424,10 @@ Proof.
   rewrite N.add_0_l, N.mul_1_l. apply N.pow_le_mono_r; [lia|]. unfold len. lia.
 Qed.
 
+(* a 32 bit count times the TLV header size does not wrap in 64 bits *)
+Lemma mul64_exact : forall a b, a < two32 -> b <= 8 -> mul64 a b = a * b.
+Proof. intros a b H1 H2. unfold mul64, two64, two32 in *. apply N.mod_small. nia. Qed.
+
 Lemma sub32_exact : forall a b, b <= a -> a < two32 -> sub32 a b = a - b.
 Proof. intros a b H1 H2. unfold sub32, two32 in *. lia. Qed.
 
@@ -479,8 +483,14 @@ Proof.
   specialize (O1 h b1 eq_refl). unfold per_peer_header_len in *.
   destruct (rd 4 b1) as [r1 k1] eqn:E1. pose proof (rd_spec _ _ _ _ E1) as (-> & S3 & _).
   destruct r1 as [[c b2]| | |]; cbn [bind]; try contradiction; [|cbn; split; [exact I|lia]].
-  apply rd_ok in E1. destruct E1 as (_ & L1 & _ & M1 & _ & _).
-  unfold min_information_tlv_len.
+  apply rd_ok in E1. destruct E1 as (_ & L1 & Lc & M1 & Ec & _).
+  assert (Hc32 : be c < two32).
+  { apply be_lt_two32.
+    - subst c. apply bytes_ok_takeN. clear - E Hb. unfold decode_pph in E.
+      do 8 (step_rd E; try discriminate). cbn [ret] in E. injection E as _ <-. subst.
+      repeat apply bytes_ok_dropN. exact Hb.
+    - unfold len in Lc. lia. }
+  unfold min_information_tlv_len. rewrite mul64_exact by (try exact Hc32; lia).
   destruct (len b2 <? be c * 4) eqn:EC; [cbn; split; [exact I|lia]|].
   unfold alloc. cbn [bind].
   pose proof (decode_stats_spec (S (length b2)) 0 (be c) b2 (Nat.lt_succ_diag_r _)) as (S4 & C4).
